@@ -172,3 +172,48 @@ Proof. exact RecipKronecker.J_recip. Qed.
 Example jacobi_reciprocity_ex : RecipKronecker.Kpos 15 77 = 1 /\ RecipKronecker.Kpos 77 15 = 1 /\ RecipJacobi.eps 77 15 = 1
   /\ RecipKronecker.Kpos 7 15 = -1 /\ RecipKronecker.Kpos 15 7 = 1 /\ RecipJacobi.eps 15 7 = -1 /\ RecipKronecker.Kpos 15 21 = 0.
 Proof. vm_compute. repeat split; reflexivity. Qed.
+
+(** *** Bertrand's postulate and total correctness of the prime iterator (fourth wave).
+    Erdos' proof, all in Coq, nothing assumed: Refine/BertrandBin.v (4^n <= 2n C(2n,n); C(2k+1,k) <= 4^k; the product of
+    the primes <= m is at most 4^m), Refine/BertrandVal.v (Legendre's formula for v_p(C(2n,n)): p^v_p <= 2n, v_p <= 1 above
+    sqrt(2n), v_p = 0 on (2n/3, n]), Refine/BertrandMain.v (the contradiction for n >= 1024 in integer arithmetic, the prime
+    chain 2, 3, 5, 7, 13, 23, 43, 83, 163, 317, 631, 1259 below), all MathComp over nat; Refine/BertrandZ.v moves the
+    statement to Z and [Znumtheory.prime]; Refine/BertrandIter.v applies it to the iterator model. *)
+From RNT.Refine Require BertrandZ BertrandIter.
+
+(** [P] Bertrand's postulate: for every n >= 1 there is a prime p with n < p <= 2n. *)
+Theorem bertrand : forall n, 1 <= n -> exists p, prime p /\ n < p <= 2 * n.
+Proof. exact BertrandZ.bertrand_Z. Qed.
+Example bertrand_ex : td_is_prime 1259 = Done true /\ 631 < 1259 <= 2 * 631 /\ td_is_prime 2 = Done true /\ 1 < 2 <= 2 * 1.
+Proof. vm_compute. repeat split; congruence. Qed.
+
+(** [P] one [next()] of the iterator, started at any now >= 1 (the code starts at 2 and continues at p + 1), returns
+    within the now + 2 candidates the model allows: it yields the least prime p >= now, p <= 2 now, new state p + 1. *)
+Theorem primes_next_total : forall now, 1 <= now ->
+  exists p, primes_next (Z.to_nat now + 2) now = Done (p, p + 1) /\
+            now <= p /\ p <= 2 * now /\ prime p /\ (forall q, now <= q < p -> ~ prime q).
+Proof. exact BertrandIter.primes_next_total. Qed.
+Example primes_next_total_ex : primes_next (Z.to_nat 114 + 2) 114 = Done (127, 128) /\ primes_next (Z.to_nat 2 + 2) 2 = Done (2, 3).
+Proof. vm_compute. split; reflexivity. Qed.
+
+(** [P] total correctness of [Primes::new().take(k)], every k: the model returns (never OutOfFuel, never a panic) a list of
+    length k, strictly increasing, all prime, and containing every prime below any of its elements: the first k primes. *)
+Theorem primes_take_total : forall k, exists l, primes_take k 2 = Done l /\
+  length l = k /\ StronglySorted Z.lt l /\
+  (forall p, In p l -> prime p) /\
+  (forall q p, prime q -> In p l -> q <= p -> In q l).
+Proof. exact BertrandIter.primes_take_total. Qed.
+Example primes_take_total_ex : primes_take 12 2 = Done [2; 3; 5; 7; 11; 13; 17; 19; 23; 29; 31; 37]. Proof. reflexivity. Qed.
+
+(** [P] the iterator enumerates ALL primes: every prime q occurs among its first q outputs ... *)
+Theorem primes_iter_complete : forall q, prime q -> exists l, primes_take (Z.to_nat q) 2 = Done l /\ In q l.
+Proof. exact BertrandIter.primes_iter_complete. Qed.
+(** ... and the outputs for different k are consistent: [take k] is a prefix of [take (k + 1)], so with
+    [primes_take_total] the k-th output of the iterator is the k-th prime, in increasing order. *)
+Theorem primes_take_snoc : forall k now l l', primes_take k now = Done l -> primes_take (S k) now = Done l' ->
+  exists x, l' = l ++ [x].
+Proof. exact BertrandIter.primes_take_snoc. Qed.
+Example primes_iter_complete_ex : td_is_prime 31 = Done true /\
+  primes_take (Z.to_nat 31) 2 = Done ([2; 3; 5; 7; 11; 13; 17; 19; 23; 29; 31] ++ [37; 41; 43; 47; 53; 59; 61; 67; 71; 73; 79; 83; 89; 97; 101; 103; 107; 109; 113; 127]) /\
+  primes_take 3 2 = Done [2; 3; 5] /\ primes_take 4 2 = Done ([2; 3; 5] ++ [7]).
+Proof. vm_compute. repeat split; reflexivity. Qed.
